@@ -579,7 +579,7 @@ PROPS["C11"] = {
     "rule": "One (facts) case; 28 forced target shapes x 3 (thorough 25) random values x 3 modes (after / filecb / encode); 150 (thorough 3000) "
             "random record schemas (no general unions) with derived covering targets x 3 modes. Values are drawn until at least two leaves are "
             "non-empty.",
-    "trusted": ["harness/cmd/factgen/alloc.go: syntactic (go/ast) extraction of what New methods return",
+    "trusted": ["harness/cmd/factgen/alloc.go: syntactic (go/ast) extraction of what New methods return; measure.go: for a New of unrecognised form, which arena element type the pointee of a decoded *X field really came from (reads the bank's unexported fields by type / position)",
                 "the Go runtime's own checks (bad pointer in heap, fault on reclaimed memory) as crash oracle of the search"],
     "assumptions": ["collector contract: survival iff reachable through pointer-typed words of typed allocations"],
 }
